@@ -12,6 +12,36 @@ CHECKS = {
   "Every byte returned by RecvStream::read is compared with a pure function of (pair, writer, stream, offset); ordered reads must be gap-free, unordered reads non-overlapping, end-of-stream only with exactly [0, finish offset) delivered, resets only with the sender's (or our stop's) code. Held on the executions produced (hundreds quick / tens of thousands thorough), under loss/dup/reorder/corruption/ECN/MTU faults, key updates, rebinding and random driver schedules.",
   "trusts the harness payload generator, reference Ranges set and the null-crypto session (a second lane runs rustls+ring); says nothing about executions not generated",
   "DESIGN.md section 4 C01"),
+ "C02": ("fault_enumeration",
+  "runtime monitoring: stuck-world oracle + bounded-progress oracle over enumerated and random loss in virtual time",
+  "Exhaustive dropping of every subset of the first K datagrams per direction (K=7 quick / 11 thorough, 6 configurations) plus seeded random worlds (all controllers incl. tiny fixed windows, pacing, ack-frequency, MTU discovery, keep-alive, limits 0-then-raised, run-time window/limit changes, key updates, rebinding, pre-handshake writes, CID rotation, random driver schedules) with strictly event-driven applications. A sans-IO world with no timer armed, nothing in flight and an incomplete workload is provably stuck (sound, unbounded); otherwise completion is required within 3600 s of virtual time after the short fault window. Unbounded liveness under perpetual loss is out of reach and restated as this bounded progress.",
+  "liveness is restated as bounded progress after faults stop; fault windows are kept short relative to the PTO so exponential back-off cannot legitimately exceed the bound; known findings (pad_to_mtu, ACK starvation under congestion blocking) are matched by tags computed from the end state",
+  "DESIGN.md section 4 C02"),
+ "C05": ("exploration",
+  "runtime monitoring: independent credit ledger over decoded wire frames (plaintext lane) + API return values + H1 probe",
+  "Every STREAM/RESET_STREAM frame of every emitted datagram is checked against a ledger built from the peer's transport parameters and every MAX_DATA/MAX_STREAM_DATA/MAX_STREAMS frame at the instant it is delivered; write() results, unacked_data vs send_window (probe), and absence of flow-control/stream-limit errors between honest peers. Held on the executions produced.",
+  "ledger is a superset of the sender's knowledge (can miss, cannot false-alarm); plaintext lane only; 0-RTT with differing remembered parameters is covered by C17",
+  "DESIGN.md section 4 C05"),
+ "C07": ("exploration",
+  "runtime monitoring: per-(connection, address, path instance) byte accounting of every transmit vs every delivery, both crypto lanes",
+  "Before each datagram a server sends to an address not yet validated (Handshake packet delivered from it, validated token, PATH_RESPONSE delivered) sent+1 <= 3 x delivered-from-that-address must hold; stateless resets strictly smaller than the inciting datagram and rate-limited. Workloads: large first flights, lost client flights (only server timers fire), vanishing clients, retry/held incoming, rebinding, junk short-header datagrams.",
+  "credited bytes are a superset of what quinn credits; on the rustls lane path validation after migration falls back on the probe flag; cumulative accounting across repeated failed migrations is a recorded known finding",
+  "DESIGN.md section 4 C07"),
+ "C12": ("exploration",
+  "runtime monitoring: wire-level congestion gate with H1 bytes-in-flight probe, conservation invariants, clean-path loss oracle, direct-drive controller histories",
+  "Gate: every non-exempt ack-eliciting datagram decoded on the plaintext lane must leave bytes in flight below the controller window (harness controllers with fixed/adversarial windows and the built-in ones); conservation: no tracked packet => nothing in flight, nothing ack-eliciting in flight after completion + idle; clean FIFO path => no packet declared lost; built-in controllers' window >= 2 datagrams in vivo and under random direct call histories.",
+  "plaintext lane for the gate; BBR floor/overflow results are recorded known findings; STREAMS_BLOCKED piggy-backing is reported separately if it ever trips the gate",
+  "DESIGN.md section 4 C12"),
+ "C13": ("exploration",
+  "runtime monitoring: per-datagram size monitor against current_mtu()/probe counters + MTU estimate history + black-hole completion",
+  "Every segment of every transmit <= the MTU estimate read before the call (single probe excepted and bounded), GSO segments uniform, client Initial and path-validation datagrams >= 1200, loss probes <= 1200, estimate rises only to a delivered probe size and never below the floor, workloads complete across path-MTU drops.",
+  "pad_to_mtu excluded (known finding under C02); probe acknowledgement itself is not observed",
+  "DESIGN.md section 4 C13"),
+ "C16": ("exploration",
+  "runtime monitoring: self-identifying datagram payloads + admission reference model + arrival-order suffix oracle",
+  "Every received datagram equals one accepted by send(), at most once; send() agrees with the reference admission model (TooLarge/Blocked/Ok, buffer space arithmetic); a non-reading receiver on a FIFO path holds a suffix of the arrival order; wire DATAGRAM payloads within the peer limit.",
+  "arrival order taken from decoded DATAGRAM frames on the plaintext lane",
+  "DESIGN.md section 4 C16"),
 }
 NOT_YET = "check not built yet (work in progress; see DESIGN.md section 4)"
 
